@@ -174,7 +174,7 @@ impl Prop for C06 {
             ph("union definition: random selections", tier.pick(30, 3000)),
             ph("named strings vs explicit unions", tier.pick(40, 2000)),
             ph("rejected names", tier.pick(200, 20000)),
-            ph("equality near-misses", tier.pick(40, 1500)),
+            ph("equality near-misses", tier.pick(45, 1800)),
         ]
     }
     fn required_classes(&self, _tier: Tier) -> Vec<String> {
@@ -186,7 +186,7 @@ impl Prop for C06 {
             v.push(format!("eq:{}=={}:equal", a, b));
             v.push(format!("eq:{}=={}:unequal", a, b));
         }
-        for c in ["weekend-holiday-added", "member-listed-twice", "order-changed", "weekday-holiday-added-to-member", "weekday-holiday-added-to-settlement-only", "difference-only-at-1970-01-01", "difference-only-at-2200-12-31", "members-and-settlement-swapped"] {
+        for c in ["weekend-holiday-added", "member-listed-twice", "order-changed", "weekday-holiday-added-to-member", "weekday-holiday-added-to-settlement-only", "difference-only-at-1970-01-01", "difference-only-at-2200-12-31", "members-and-settlement-swapped", "non-restrictive-settlement:empty-list", "non-restrictive-settlement:all"] {
             v.push(format!("eq-case:{}", c));
         }
         v
@@ -368,7 +368,7 @@ impl Prop for C06 {
                     h.push(to_ndt(z));
                     Cal::new(h, rateslib::verif::cal_week_mask(c))
                 };
-                let variant = idx % 8;
+                let variant = idx % 9;
                 let desc = json!({"members": base_names, "settlement": settle_names, "variant": variant});
                 ctx.crumb(&format!("eq variant {} {}", variant, name_str));
                 ctx.distinct(hash_u64s(&[idx, crate::util::hash_str(&name_str)]));
@@ -479,6 +479,24 @@ impl Prop for C06 {
                             if let Ok(n) = NamedCal::try_new("bus") {
                                 check_eq(ctx, &K::N(n), &b, label, desc.clone());
                             }
+                        }
+                    }
+                    8 => {
+                        // settlement calendars that never block a date: behaviour identical to none at all
+                        let all = get_calendar_by_name("all").unwrap();
+                        let single = members[0].clone();
+                        let plain = K::C(single.clone());
+                        for (label, sc) in [("non-restrictive-settlement:empty-list", Some(vec![])), ("non-restrictive-settlement:all", Some(vec![all.clone()]))] {
+                            let u = K::U(UnionCal::new(vec![single.clone()], sc.clone()));
+                            check_eq(ctx, &plain, &u, label, desc.clone());
+                            check_eq(ctx, &K::U(UnionCal::new(vec![single.clone()], None)), &u, label, desc.clone());
+                            if let Ok(n) = NamedCal::try_new(base_names[0]) {
+                                check_eq(ctx, &K::N(n), &u, label, desc.clone());
+                            }
+                        }
+                        if let (Ok(n1), Ok(n2)) = (NamedCal::try_new(&format!("{}|all", base_names[0])), NamedCal::try_new(base_names[0])) {
+                            check_eq(ctx, &K::N(n1.clone()), &K::N(n2), "non-restrictive-settlement:all", desc.clone());
+                            check_eq(ctx, &plain, &K::N(n1), "non-restrictive-settlement:all", desc.clone());
                         }
                     }
                     _ => {
